@@ -212,7 +212,15 @@ func vpHistory(t *testing.T, penc, eenc *json.Encoder, hist int, rng *rand.Rand,
 	cfg.BlockchainPubkey = pub
 	cfg.GenesisAddress = owners[0].addr
 	cfg.GenesisTimestamp = vlGenesisTime
-	cfg.GenesisCoinVolume = vlVolume
+	// one history in four runs at the top of the 64-bit range: the whole range is the coin volume (and so the genesis coin
+	// hours), and two part-coin outputs that never earn anything carry all but a few of the 2^64-1 hours - the fee and burn
+	// arithmetic for their joint spend is within a few units of wrapping
+	top := hist%4 == 3
+	volume := vlVolume
+	if top {
+		volume = ^uint64(0)
+	}
+	cfg.GenesisCoinVolume = volume
 	cfg.UnconfirmedVerifyTxn = unc
 	cfg.CreateBlockVerifyTxn = crt
 	cfg.MaxBlockTransactionsSize = crt.MaxTransactionSize + uint32(rng.Intn(3))*250
@@ -236,6 +244,8 @@ func vpHistory(t *testing.T, penc, eenc *json.Encoder, hist int, rng *rand.Rand,
 
 	step := 0
 	tieAddr := map[cipher.Address]bool{}
+	var topAddr cipher.Address
+	var topK uint64
 	badSig := map[string]bool{}
 	kinds := map[string]string{}
 	emit := func(r vpRec) {
@@ -261,6 +271,11 @@ func vpHistory(t *testing.T, penc, eenc *json.Encoder, hist int, rng *rand.Rand,
 	}
 	viewAddrs = append(viewAddrs, cipher.AddressFromPubKey(pub)) // an address that never receives anything
 	emitView := func(N *vlNode, nm, phase string) {
+		if top {
+			// with 2^64-1 coins the balance queries fail by design as soon as two pending transactions pay one address
+			// (their predicted outputs do not fit 64 bits together): the views are recorded in the other histories
+			return
+		}
 		r := vwViews(t, N, nm, phase, viewAddrs, int(rng.Int31n(1000)))
 		r.Hist, r.Step = hist, step
 		step++
@@ -279,7 +294,7 @@ func vpHistory(t *testing.T, penc, eenc *json.Encoder, hist int, rng *rand.Rand,
 	// one ledger edge: block sb offered to node N
 	offer := func(N *vlNode, mut string, sb coin.SignedBlock) bool {
 		pre := N.state(t)
-		e := vlEdge{Hist: hist, Step: step, Mut: mut, Volume: vlLimbs(vlVolume), Pre: pre, Blk: vlDescribe(sb, coin.BlockHeader{}, true, true, nil)}
+		e := vlEdge{Hist: hist, Step: step, Mut: mut, Volume: vlLimbs(volume), Pre: pre, Blk: vlDescribe(sb, coin.BlockHeader{}, true, true, nil)}
 		for i := range e.Blk.Txns {
 			e.Blk.Txns[i].SigsOK = !badSig[e.Blk.Txns[i].Hash]
 		}
@@ -329,12 +344,18 @@ func vpHistory(t *testing.T, penc, eenc *json.Encoder, hist int, rng *rand.Rand,
 		rem := uxs[0].Body.Coins
 		hrs, _ := uxs[0].CoinHours(vlGenesisTime)
 		remH := hrs / 2
+		if top {
+			remH = 0
+		}
 		nout := 8 + rng.Intn(5)
 		for k := 0; k < nout; k++ {
 			c, hh := rem, remH
 			if k < nout-1 {
 				c = (1 + uint64(rng.Int63n(int64(rem/1e6/uint64(nout-k)/2)))) * 1e6
-				hh = uint64(rng.Int63n(int64(remH/uint64(nout-k)))) / uint64(1+rng.Intn(1000000))
+				hh = 0
+				if remH > 0 {
+					hh = uint64(rng.Int63n(int64(remH/uint64(nout-k)))) / uint64(1+rng.Intn(1000000))
+				}
 			}
 			dst := owners[k%4].addr
 			txn.Out = append(txn.Out, coin.TransactionOutput{Address: dst, Coins: c, Hours: hh})
@@ -356,6 +377,17 @@ func vpHistory(t *testing.T, penc, eenc *json.Encoder, hist int, rng *rand.Rand,
 			txn.Out = append(txn.Out, coin.TransactionOutput{Address: ta, Coins: 2e6, Hours: 40})
 			txn.Out[last].Coins -= 2e6
 		}
+		if top {
+			p, sk, _ := cipher.GenerateDeterministicKeyPair([]byte(fmt.Sprintf("top-%d", rng.Int63())))
+			topAddr = cipher.AddressFromPubKey(p)
+			keyOf[topAddr] = sk
+			tieAddr[topAddr] = true // reserved, like the tie batch
+			// half a coin earns an hour every two hours: after the topK hours until block 2 the pair holds 2^64-1-j hours
+			topK = 2 * uint64(1+rng.Intn(25))
+			txn.Out = append(txn.Out, coin.TransactionOutput{Address: topAddr, Coins: 500000, Hours: hrs - 3 - topK - uint64([]int{0, 0, 1, 2}[rng.Intn(4)])},
+				coin.TransactionOutput{Address: topAddr, Coins: 500000, Hours: 3})
+			txn.Out[last].Coins -= 1e6
+		}
 		txn.SignInputs([]cipher.SecKey{owners[0].sec})
 		_ = txn.UpdateHeader()
 		var uxh cipher.SHA256
@@ -374,6 +406,37 @@ func vpHistory(t *testing.T, penc, eenc *json.Encoder, hist int, rng *rand.Rand,
 		}
 	}
 
+	if top {
+		// block 2 (by hand as well) only moves time on, so that the ordinary outputs - created with no hours - have earned some
+		uxs, _ := P.v.GetAllUnspentOutputs()
+		sort.Slice(uxs, func(i, j int) bool { return uxs[i].Hash().Hex() < uxs[j].Hash().Hex() })
+		for _, ux := range uxs {
+			if ux.Body.Address != owners[1].addr {
+				continue
+			}
+			var txn coin.Transaction
+			_ = txn.PushInput(ux.Hash())
+			txn.Out = append(txn.Out, coin.TransactionOutput{Address: owners[1].addr, Coins: ux.Body.Coins})
+			txn.SignInputs([]cipher.SecKey{owners[1].sec})
+			_ = txn.UpdateHeader()
+			var uxh cipher.SHA256
+			_ = P.db.View("uxh", func(tx *dbutil.Tx) error {
+				var err error
+				uxh, err = P.v.blockchain.Unspent().GetUxHash(tx)
+				return err
+			})
+			now += 3600 * topK
+			b, err := coin.NewBlock(P.head(t).Block, now, uxh, coin.Transactions{txn}, vlZeroFee)
+			if err != nil {
+				t.Fatal(err)
+			}
+			sb := sign(*b, sec)
+			if !offer(P, "valid", sb) || !offer(F, "valid", sb) {
+				return
+			}
+			break
+		}
+	}
 	emitView(F, "F", "after-block-1")
 	var spent []coin.UxOut
 	// ---- transaction generator
@@ -395,7 +458,10 @@ func vpHistory(t *testing.T, penc, eenc *json.Encoder, hist int, rng *rand.Rand,
 		if coins == 0 {
 			return txn, false
 		}
-		req := (hours + uint64(burn) - 1) / uint64(burn)
+		req := hours / uint64(burn)
+		if hours%uint64(burn) != 0 {
+			req++
+		}
 		outH := hours / 2
 		switch kind {
 		case "fee-exact":
@@ -535,6 +601,7 @@ func vpHistory(t *testing.T, penc, eenc *json.Encoder, hist int, rng *rand.Rand,
 	kindsList := []string{"normal", "normal", "normal", "fee-exact", "fee-exact", "fee-minus-one", "zero-fee", "hours-over", "precision", "precision", "locked", "null-out", "null-out",
 		"bad-sig", "unknown-input", "spent-input", "big", "hours-overflow", "conflict", "conflict", "chain", "coins-created"}
 	var lastTxns []coin.Transaction
+	topRound := 0 // while block 2 is the head
 	for round := 0; round < nrounds; round++ {
 		uxs, err := P.v.GetAllUnspentOutputs()
 		if err != nil {
@@ -581,7 +648,16 @@ func vpHistory(t *testing.T, penc, eenc *json.Encoder, hist int, rng *rand.Rand,
 				if len(lockedUx) == 0 {
 					continue
 				}
-				if txn, ok := mk(P, kind, []coin.UxOut{lockedUx[rng.Intn(len(lockedUx))]}, burn); ok {
+				// a locked output alone, or together with an ordinary one (in either position)
+				lin := []coin.UxOut{lockedUx[rng.Intn(len(lockedUx))]}
+				if rng.Intn(2) == 0 {
+					if rng.Intn(2) == 0 {
+						lin = append(lin, free[rng.Intn(len(free))])
+					} else {
+						lin = append([]coin.UxOut{free[rng.Intn(len(free))]}, lin...)
+					}
+				}
+				if txn, ok := mk(P, kind, lin, burn); ok {
 					batch = append(batch, txn)
 				}
 			case "spent-input":
@@ -665,10 +741,59 @@ func vpHistory(t *testing.T, penc, eenc *json.Encoder, hist int, rng *rand.Rand,
 				lastTxns = append(lastTxns, txn)
 			}
 		}
+		if top && round == topRound {
+			// the joint spend of the two top-of-range outputs: one that burns too little, one that burns enough, or both
+			var pair []coin.UxOut
+			for _, ux := range uxs {
+				if ux.Body.Address == topAddr {
+					pair = append(pair, ux)
+				}
+			}
+			if len(pair) == 2 {
+				// first the one that burns too little for the publisher's rule, alone: the block made now must not have it;
+				// then (every second time) one that burns enough, which must win the conflict
+				badKind := []string{"fee-minus-one", "fee-minus-one", "fee-minus-one", "zero-fee"}[rng.Intn(4)]
+				if txn, ok := mk(P, badKind, pair, crt.BurnFactor); ok {
+					kinds[txn.Hash().Hex()] = "top-" + badKind
+					inject(P, txn, rng.Intn(4) == 0)
+					if rng.Intn(2) == 0 {
+						inject(F, txn, false)
+					}
+					r := record(P, "create")
+					r.P, r.MaxBlock, r.MaxTxns = vpP(crt), cfg.MaxBlockTransactionsSize, coin.MaxBlockTransactions
+					var sb coin.SignedBlock
+					cerr := P.db.View("verif create probe", func(tx *dbutil.Tx) error {
+						var err error
+						sb, err = P.v.createBlock(tx, now+10)
+						return err
+					})
+					r.Post, _ = P.poolEntries(t)
+					if cerr != nil {
+						r.Res, r.Err = "none", cerr.Error()
+					} else {
+						r.Res = "ok"
+						for _, txn := range sb.Body.Transactions {
+							r.Hashes = append(r.Hashes, txn.Hash().Hex())
+						}
+					}
+					emit(r)
+				}
+				if rng.Intn(2) == 0 {
+					k := []string{"fee-exact", "normal"}[rng.Intn(2)]
+					if txn, ok := mk(P, k, pair, []uint32{user.BurnFactor, unc.BurnFactor, crt.BurnFactor}[rng.Intn(3)]); ok {
+						kinds[txn.Hash().Hex()] = "top-" + k
+						inject(P, txn, rng.Intn(4) == 0)
+						if rng.Intn(2) == 0 {
+							inject(F, txn, false)
+						}
+					}
+				}
+			}
+		}
 		if round == 0 {
 			// the tie batch: one transaction per identical output, each burning exactly half of the same hours
 			for _, ux := range uxs {
-				if tieAddr[ux.Body.Address] {
+				if tieAddr[ux.Body.Address] && ux.Body.Address != topAddr {
 					var txn coin.Transaction
 					_ = txn.PushInput(ux.Hash())
 					txn.Out = append(txn.Out, coin.TransactionOutput{Address: owners[rng.Intn(3)].addr, Coins: 2e6, Hours: 10})
